@@ -382,6 +382,29 @@ where
     let ref_a = collect_ref!(|m: Meter| Segment::integral_iter(ByValue { segs: by_value_src.clone(), m }, k0), "integral_iter (by value)");
     let ref_b = collect_ref!(|m: Meter| Segment::integral_iter_ref(ByRef { segs: &f.segments[..], m }, k0), "integral_iter_ref (by reference)");
     let ref_x = collect_ref!(|m: Meter| Segment::integral_iter_ref(ByRef { segs: &f.segments[..], m }, k1), "integral_iter_ref (by reference)");
+    // the same through inputs that report an EXACT size hint (a Vec by value, a slice by reference): what an
+    // iterator yields must not depend on what the caller's iterator says about its length
+    let vec_a = match guard(|| Segment::integral_iter(f.segments.clone(), k0).collect::<Vec<_>>()) {
+        Ok(v) => v,
+        Err(p) => return IRes::Violation("panic".into(), format!("integral_iter over a Vec panicked: {p}")),
+    };
+    let slice_b = match guard(|| Segment::integral_iter_ref(&f.segments, k0).collect::<Vec<_>>()) {
+        Ok(v) => v,
+        Err(p) => return IRes::Violation("panic".into(), format!("integral_iter_ref over a slice panicked: {p}")),
+    };
+    for (name, got, want) in [("integral_iter over a Vec (exact size hint)", &vec_a, &ref_a), ("integral_iter_ref over a slice (exact size hint)", &slice_b, &ref_b)] {
+        if got.len() != n {
+            return IRes::Violation("structure".into(), format!("{name} yielded {} pieces for {n} input segments", got.len()));
+        }
+        for i in 0..n {
+            if seg_bits(&got[i]) != seg_bits(&want.segments[i]) {
+                return IRes::Violation(
+                    "structure".into(),
+                    format!("piece {i}: {name} yields {} but the same iterator over an input with size hint (0, None) yields {}", fmt_seg(&got[i]), fmt_seg(&want.segments[i])),
+                );
+            }
+        }
+    }
     for i in 0..n {
         // the property's own sentence: by-value and by-reference iterators produce identical pieces
         if seg_bits(&ref_a.segments[i]) != seg_bits(&ref_b.segments[i]) {
@@ -874,7 +897,11 @@ fn gen_scn(rng: &mut Rng, _tier: Tier) -> IntegScn {
             6..=8 => rng.usize_in(11, 40),
             _ => {
                 if rng.chance(1, 12) {
-                    rng.usize_in(1025, 2100)
+                    if rng.chance(1, 6) {
+                        rng.usize_in(4097, 4200)
+                    } else {
+                        rng.usize_in(1025, 2100)
+                    }
                 } else {
                     rng.usize_in(100, 300)
                 }
